@@ -364,3 +364,59 @@ func TestHBMonitor(t *testing.T) {
 		t.Fatalf("capacity edge missing: %v", r)
 	}
 }
+
+func TestStatePruning(t *testing.T) {
+	// the same verdicts and the same set of distinct behaviours with and without pruning
+	mk := func() (func(), *[]string) {
+		outs := &[]string{}
+		body := func() {
+			Window(true)
+			x := 0
+			var m MutexState
+			c := make(chan int, 1)
+			d := NewSem(0)
+			for i := 0; i < 3; i++ {
+				i := i
+				Go("w", func() {
+					MutexLock(&m)
+					x = x*3 + i
+					MutexUnlock(&m)
+					if i == 0 {
+						Send(c, x)
+					}
+					d.Release()
+				})
+			}
+			d.Acquire()
+			d.Acquire()
+			d.Acquire()
+			v := Recv(c)
+			*outs = append(*outs, string(rune('a'+x%26))+string(rune('a'+v%26)))
+		}
+		return body, outs
+	}
+	b1, o1 := mk()
+	s1, _ := Explore(b1, func(*Exec) string { return "" }, Bounds{P: 50})
+	b2, o2 := mk()
+	s2, _ := Explore(b2, func(*Exec) string { return "" }, Bounds{P: 50, Prune: true})
+	set := func(xs []string) map[string]bool {
+		m := map[string]bool{}
+		for _, x := range xs {
+			m[x] = true
+		}
+		return m
+	}
+	a, b := set(*o1), set(*o2)
+	if len(a) != len(b) {
+		t.Fatalf("pruned search saw %d outcomes, full search %d", len(b), len(a))
+	}
+	for k := range a {
+		if !b[k] {
+			t.Fatalf("outcome %s missed by the pruned search", k)
+		}
+	}
+	if len(s1.Distinct) != len(s2.Distinct) {
+		t.Fatalf("distinct behaviours %d vs %d", len(s1.Distinct), len(s2.Distinct))
+	}
+	t.Logf("full: %d execs; pruned: %d execs (%d choice points pruned); %d outcomes, %d behaviours", s1.Execs, s2.Execs, s2.Pruned, len(a), len(s1.Distinct))
+}
